@@ -15,6 +15,10 @@
 // Box coordinates range over [-2^30, 2^30) (size = max - pos must not overflow); everything else is full range.
 // Outside the claim: floating point components (NaN), hash *quality*, types whose comparison needs iostream/locale.
 //@property C17
+// value types whose ==/hash coherence is decided in more depth by their own property's kernels, imported here:
+// bitfield results of ~ in narrow words (C10), tree == over a shape catalogue (C09)
+//@import C10_bitfield.cpp only=^h_(ops|self|rel)_(3|9)_(u8|u16)$
+//@import C09_compare.cpp only=^h_cmp_(shapes|reinsert)
 //@models libc_single
 #include "verif_api.h"
 #include <fcppt/make_ref.hpp>
